@@ -1,19 +1,19 @@
 #!/bin/bash
 # tools/eval_mutants.sh <out.jsonl> <tier> <dir>...   — apply each mutant to /repo, run its property's check, undo.
 out=$1; tier=$2; shift 2
-cd /verif
+cd ${EVAL_VERIF:-/verif}
 for arg in "$@"; do
   d=${arg%%:*}; over=""; [ "$arg" != "$d" ] && over=${arg##*:}
   patch="$d/patch.diff"; [ -f "$d/patch.ported.diff" ] && patch="$d/patch.ported.diff"
   id=$(python3 -c "import json,sys; print(json.load(open('$d/meta.json'))['property'])" 2>/dev/null)
   [ -z "$id" ] && id=$(basename $(dirname $d) | cut -c1-3)
   [ -n "$over" ] && id=$over
-  if ! git -C /repo apply --check "$patch" 2>/dev/null; then echo "{\"dir\":\"$d\",\"property\":\"$id\",\"error\":\"patch does not apply\"}" >> $out; continue; fi
-  git -C /repo apply "$patch"
+  if ! git -C ${EVAL_REPO:-/repo} apply --check "$patch" 2>/dev/null; then echo "{\"dir\":\"$d\",\"property\":\"$id\",\"error\":\"patch does not apply\"}" >> $out; continue; fi
+  git -C ${EVAL_REPO:-/repo} apply "$patch"
   t0=$(date +%s)
   bin/check $id $tier > /tmp/eval.$$.out 2>&1; rc=$?
   t1=$(date +%s)
-  git -C /repo checkout -- .
+  git -C ${EVAL_REPO:-/repo} checkout -- .
   viol=$(grep -c "^VIOLATION" /tmp/eval.$$.out)
   first=$(grep -m1 -A1 "^VIOLATION" /tmp/eval.$$.out | tail -1 | cut -c1-400 | python3 -c "import sys,json; print(json.dumps(sys.stdin.read().strip()))")
   summary=$(tail -1 /tmp/eval.$$.out | python3 -c "import sys,json; print(json.dumps(sys.stdin.read().strip()[:300]))")
